@@ -416,6 +416,8 @@ def _block_of(s: ast.stmt) -> List[ast.stmt]:
 
 def run(ctx):
     check_table(ctx)
+    from . import c01
+    c01.check_check_transition(ctx)      # the table is actually consulted for every request (filed under #1 / #2 of this property)
     check_transition_fn(ctx, 2)
     check_writers(ctx, 3)
     check_assignment_ctor(ctx, 4)
